@@ -142,6 +142,7 @@ func execReal(a *Args, c *c10Case, id int64) (panicked any) {
 		c.Ref = "local.example/c10@" + subject.Digest.String()
 	}
 	c.RefClass, w.wantRef = classifyRef(c.Ref, w.resolved.Digest.String())
+	c.RefParsed, c.ResolvedDg = w.wantRef, w.resolved.Digest.String()
 	// the descriptor the repository answers for exactly this reference (a tag
 	// and a digest resolve to descriptors that differ in their annotations)
 	w.resolved, err = repo.Resolve(ctx, w.wantRef)
